@@ -26,12 +26,12 @@ type advField struct {
 }
 
 type advType struct {
-	Kind          string      `json:"kind"`
-	Name          string      `json:"name"`
-	Fields        []*advField `json:"fields"`
-	InputFields   []*advInput `json:"inputFields"`
+	Kind          string                  `json:"kind"`
+	Name          string                  `json:"name"`
+	Fields        []*advField             `json:"fields"`
+	InputFields   []*advInput             `json:"inputFields"`
 	EnumValues    []struct{ Name string } `json:"enumValues"`
-	PossibleTypes []*advRef   `json:"possibleTypes"`
+	PossibleTypes []*advRef               `json:"possibleTypes"`
 
 	fieldByName map[string]*advField
 	enumSet     map[string]bool
